@@ -180,6 +180,12 @@ class Ctx:
             self.cost_used += costs[c]
         return c if isinstance(options, int) else options[c]
 
+    @property
+    def fresh(self):
+        """True when the node reached by the choices made so far is visited for the first time in
+        the whole exploration (it is not part of the replayed prefix, or is its last element)."""
+        return len(self.choices) >= len(self.prefix)
+
     # -- accounting ---------------------------------------------------------------------------
     def call(self, k=1):
         self.stats.calls += k
@@ -248,9 +254,9 @@ def explore(body, prefix=(), bound=None, stats=None, expand_only=False, audit_ev
         if ctx.failures:
             # determinism audit: a violation must reproduce identically
             s2 = Stats()
-            c2 = _run(body, ctx.choices, s2, bound)
+            c2 = _run(body, p, s2, bound)     # same prefix: the same nodes count as fresh
             stats.reruns += 1
-            if json.dumps(c2.failures, sort_keys=True, default=repr) != json.dumps(ctx.failures, sort_keys=True, default=repr):
+            if c2.choices != ctx.choices or json.dumps(c2.failures, sort_keys=True, default=repr) != json.dumps(ctx.failures, sort_keys=True, default=repr):
                 raise HarnessError("violation did not reproduce identically for choices %r" % (ctx.choices,))
             for f in ctx.failures:
                 f = dict(f)
@@ -259,7 +265,7 @@ def explore(body, prefix=(), bound=None, stats=None, expand_only=False, audit_ev
                 stats.add_failure(f)
         elif audit_every and stats.executions % audit_every == 0:
             s2 = Stats()
-            c2 = _run(body, ctx.choices, s2, bound)
+            c2 = _run(body, p, s2, bound)
             stats.reruns += 1
             if c2.choices != ctx.choices or c2.arity != ctx.arity:
                 raise HarnessError("non-deterministic body for choices %r" % (ctx.choices,))
